@@ -18,6 +18,7 @@ pub fn dispatch(ctx: &Ctx) -> i32 {
         "C14" => reframe::check(ctx),
         "C07" => codeccfg::check(ctx),
         "C12" => nopanic::check(ctx),
+        "C16" => widths::check(ctx),
         "C11" => frag::check(ctx, "C11"),
         "C06" => contract::check(ctx, contract::Which::C06),
         p => {
@@ -35,6 +36,7 @@ pub fn replay(prop: &str, case: &serde_json::Value) -> i32 {
         Some("E3") => faults::replay(case),
         Some(e) if e.starts_with("E2-c07") => codeccfg::replay(case),
         Some(e) if e.starts_with("E2-c12") => nopanic::replay(case),
+        Some(e) if e.starts_with("E2-c16") => widths::replay(case),
         Some("E2-annexb") | Some("E2-annexb-mux") | Some("E2-adts") => reframe::replay(case),
         e => {
             eprintln!("unknown engine {e:?}");
@@ -49,6 +51,7 @@ pub mod faults;
 pub mod reframe;
 pub mod codeccfg;
 pub mod nopanic;
+pub mod widths;
 
 use oracle::report::{Meta, Tally};
 
